@@ -111,9 +111,10 @@ Seen(g, id) == id \in DOMAIN g.st \/ id \in DOMAIN g.kid
 IsNotice(g, t) == t.typ = "REQ" /\ XH(t) /\ Seen(g, t.id) /\ t.notice \in {"BF", "RB"}
 NoticeEv(t) == IF t.notice = "BF" THEN "NBF" ELSE "NRB"
 
+\* a local destination must exist, be available and must not block the source (env.black: <<destination, source>>)
 DestOK(env, t) ==
-  IF t.dstLocal THEN Avail(env, t.dst) ELSE RelayAvail(env, t.dstBxh)
-IsBatchDst(env, t) == t.dstLocal /\ t.dst \in env.unordered /\ Avail(env, t.dst)
+  IF t.dstLocal THEN Avail(env, t.dst) /\ <<t.dst, t.src>> \notin env.black ELSE RelayAvail(env, t.dstBxh)
+IsBatchDst(env, t) == t.dstLocal /\ t.dst \in env.unordered /\ DestOK(env, t)
 SourceOK(env, t) == IF t.srcLocal THEN Avail(env, t.src) ELSE t.dstLocal /\ RelayAvail(env, t.srcBxh)
 
 CurStatus(g, id) == IF id \in DOMAIN g.st THEN g.st[id]
